@@ -5,6 +5,7 @@ package main
 
 import (
 	"fmt"
+	"runtime"
 	"sort"
 	"strings"
 	"sync"
@@ -45,6 +46,7 @@ type Job struct {
 	Labels   []string       `json:"labels,omitempty"` // labels that must be reached (vacuity guard)
 	Verbose  bool           `json:"-"`
 	Desc     string         `json:"desc,omitempty"`
+	Prefer   string         `json:"solver_first,omitempty"` // "int" (default) or "bits": which z3 configuration is asked first
 }
 
 type dec struct {
@@ -102,6 +104,7 @@ type JobResult struct {
 	AbortMsgs     map[string]string
 	SolverQueries int
 	FallbackHits  int
+	ByProc        map[string]int
 	SolverTime    time.Duration
 	Wall          time.Duration
 	Steps         int64
@@ -122,6 +125,7 @@ type Explorer struct {
 	stop    bool
 	queryDir string
 	nq      int
+	nInf    int
 	cond    *sync.Cond
 }
 
@@ -147,6 +151,14 @@ type Run struct {
 	stubs      map[string]int
 	unwinds    []string
 	samples    []interface{}
+	pending    []pendingAssert
+}
+
+type pendingAssert struct {
+	c     *Term
+	label string
+	pos   string
+	scen  string
 }
 
 func (r *Run) fresh() bool { return len(r.decisions) >= len(r.prefix) }
@@ -223,6 +235,7 @@ func (r *Run) choose(in *Interp, conds []*Term, what string) int {
 		case "sat":
 			feas = append(feas, i)
 		case "unsat":
+			r.ex.sampleInfeasible(in, c)
 		default:
 			r.unknown++
 			feas = append(feas, i) // unknown = keep
@@ -232,6 +245,7 @@ func (r *Run) choose(in *Interp, conds []*Term, what string) int {
 		in.abort("infeasible", "no feasible alternative at %s", what)
 	}
 	if len(feas) > 1 {
+		r.flush(in)
 		r.forks++
 		base := append([]dec(nil), r.decisions...)
 		for _, k := range feas[1:] {
@@ -262,6 +276,7 @@ func (r *Run) concretise(in *Interp, t *Term, what string) uint64 {
 	}
 	var vals []uint64
 	var excl []*Term
+	r.flush(in)
 	in.sv.define(t)
 	for {
 		res := in.sv.Check(excl...)
@@ -308,6 +323,7 @@ func (r *Run) assume(in *Interp, c *Term, pos string) {
 		r.addPC(in, c)
 		return
 	}
+	r.flush(in)
 	if c.IsFalse() {
 		r.pruned[pos]++
 		in.abort("assume", "assumption false at %s", pos)
@@ -360,8 +376,7 @@ func (r *Run) mkViolation(in *Interp, kind, label, pos, msg string, m map[string
 
 func (r *Run) assert(in *Interp, c *Term, label, pos string) {
 	if !r.fresh() {
-		r.addPC(in, c)
-		return
+		return // decided by the ancestor run that explored this prefix
 	}
 	r.reached[label]++
 	r.obligations++
@@ -369,38 +384,83 @@ func (r *Run) assert(in *Interp, c *Term, label, pos string) {
 		r.discharged++
 		return
 	}
-	neg := in.tb.Not(c)
-	var res string
-	if c.IsFalse() {
-		res = in.sv.Check()
-	} else {
-		res = in.sv.Check(neg)
-		r.ex.dumpQuery(in, neg, label)
+	r.pending = append(r.pending, pendingAssert{c: c, label: label, pos: pos, scen: r.scenario})
+	if c.IsFalse() || len(r.pending) >= 64 {
+		r.flush(in)
 	}
-	switch res {
-	case "unsat":
-		r.discharged++
-	case "sat":
-		m := r.model(in)
-		v := r.mkViolation(in, "assert", label, pos, "", m)
-		if m != nil {
-			memo := map[int]uint64{}
-			if neg.eval(m, memo) != 1 {
-				v.InterpOK = false
+}
+
+// flush decides the pending assertions in one query: sat(PC and not(c1 and ... and cn)). The pending
+// conditions are not part of PC, so a violation of any of them under the current path condition is found;
+// it is called before every fork, assumption, concretisation and at the end of the path.
+func (r *Run) flush(in *Interp) {
+	for len(r.pending) > 0 {
+		conj := in.tb.True()
+		for _, p := range r.pending {
+			conj = in.tb.And(conj, p.c)
+		}
+		neg := in.tb.Not(conj)
+		res := "unsat"
+		if !neg.IsFalse() {
+			if neg.IsTrue() {
+				res = in.sv.Check()
+			} else {
+				res = in.sv.Check(neg)
+				r.ex.dumpQuery(in, neg, r.pending[0].label)
 			}
 		}
-		r.violations = append(r.violations, v)
-		// continue on the side where the assertion holds
-		if c.IsFalse() {
-			in.abort("stop", "assertion %s always fails here", label)
+		switch res {
+		case "unsat":
+			r.discharged += len(r.pending)
+			r.pending = r.pending[:0]
+			return
+		case "sat":
+			m := r.model(in)
+			if m == nil {
+				r.unknownAssert += len(r.pending)
+				r.pending = r.pending[:0]
+				return
+			}
+			memo := map[int]uint64{}
+			idx := -1
+			for i, p := range r.pending {
+				if p.c.eval(m, memo) != 1 {
+					idx = i
+					break
+				}
+			}
+			if idx < 0 {
+				// model does not falsify any conjunct: evaluation/solver mismatch
+				r.unknownAssert += len(r.pending)
+				r.pending = r.pending[:0]
+				return
+			}
+			p := r.pending[idx]
+			saved := r.scenario
+			r.scenario = p.scen
+			v := r.mkViolation(in, "assert", p.label, p.pos, "", m)
+			r.scenario = saved
+			r.violations = append(r.violations, v)
+			r.discharged += idx
+			// continue on the side where the violated assertion (and those before it) hold
+			for _, q := range r.pending[:idx+1] {
+				if q.c.IsFalse() {
+					r.pending = r.pending[:0]
+					in.abort("stop", "assertion %s always fails here", q.label)
+				}
+				r.addPC(in, q.c)
+			}
+			r.pending = append(r.pending[:0], r.pending[idx+1:]...)
+			if in.sv.Check() != "sat" {
+				r.pending = r.pending[:0]
+				in.abort("stop", "assertion %s fails on the whole path", p.label)
+			}
+		default:
+			r.unknownAssert += len(r.pending)
+			r.pending = r.pending[:0]
+			return
 		}
-		if in.sv.Check(c) != "sat" {
-			in.abort("stop", "assertion %s fails on the whole path", label)
-		}
-	default:
-		r.unknownAssert++
 	}
-	r.addPC(in, c)
 }
 
 func (r *Run) noteUncaughtPanic(in *Interp, t *Thread, p targetPanic) {}
@@ -409,6 +469,7 @@ func (r *Run) noteDeadlock(in *Interp, what string) {
 	if !r.fresh() {
 		return
 	}
+	r.flush(in)
 	r.obligations++
 	res := in.sv.Check()
 	if res == "sat" {
@@ -463,6 +524,21 @@ func (ex *Explorer) done() {
 	ex.mu.Unlock()
 }
 
+// sampleInfeasible dumps every 25th branch-pruning query (answered unsat) for the solver cross-check.
+func (ex *Explorer) sampleInfeasible(in *Interp, c *Term) {
+	if ex.queryDir == "" {
+		return
+	}
+	ex.mu.Lock()
+	ex.nInf++
+	n := ex.nInf
+	ex.mu.Unlock()
+	if n%25 != 1 || n > 20000 {
+		return
+	}
+	writeFile(fmt.Sprintf("%s/%s_inf%05d.smt2", ex.queryDir, sanitize(ex.job.Name), n), in.sv.Standalone(c))
+}
+
 func (ex *Explorer) dumpQuery(in *Interp, neg *Term, label string) {
 	if ex.queryDir == "" {
 		return
@@ -482,14 +558,14 @@ func RunJob(P *Program, job *Job, workers int, solverBin string, solverArgs []st
 	ex := &Explorer{P: P, job: job, start: time.Now(), queryDir: queryDir}
 	ex.cond = sync.NewCond(&ex.mu)
 	ex.res = &JobResult{Job: job, AssumePruned: map[string]int{}, Reached: map[string]int{}, Stubs: map[string]int{},
-		Funcs: map[string]string{}, Aborts: map[string]int{}, AbortMsgs: map[string]string{}}
+		Funcs: map[string]string{}, Aborts: map[string]int{}, AbortMsgs: map[string]string{}, ByProc: map[string]int{}}
 	ex.work = [][]dec{nil}
 	var wg sync.WaitGroup
 	for w := 0; w < workers; w++ {
 		wg.Add(1)
 		go func() {
 			defer wg.Done()
-			sv, err := NewSolver(solverBin, solverArgs, job.B.SolverMs)
+			sv, err := NewSolver(solverBin, job.Prefer, job.B.SolverMs)
 			if err != nil {
 				ex.mu.Lock()
 				ex.res.Undecided = append(ex.res.Undecided, "solver start: "+err.Error())
@@ -510,6 +586,9 @@ func RunJob(P *Program, job *Job, workers int, solverBin string, solverArgs []st
 			ex.res.SolverQueries += sv.Queries
 			ex.res.SolverTime += sv.Time
 			ex.res.FallbackHits += sv.FallbackHits
+			for k, v := range sv.ByProc {
+				ex.res.ByProc[k] += v
+			}
 			ex.mu.Unlock()
 		}()
 	}
@@ -581,6 +660,19 @@ func (ex *Explorer) runOne(sv *Solver, prefix []dec) {
 		in.sched.wg.Wait()
 		abort = r.abortV
 	}
+	// decide whatever assertions are still pending (the path ended, by completion or abort)
+	if r.fresh() || len(r.pending) > 0 {
+		func() {
+			defer func() {
+				if x := recover(); x != nil {
+					if _, ok := x.(abortRun); !ok {
+						panic(x)
+					}
+				}
+			}()
+			r.flush(in)
+		}()
+	}
 	// uncaught panic on the main thread = violation (unless the path is infeasible, which cannot be: PC is sat)
 	if abort != nil && abort.kind == "panic" && r.fresh() {
 		r.obligations++
@@ -648,6 +740,15 @@ func (ex *Explorer) runOne(sv *Solver, prefix []dec) {
 		res.Samples = append(res.Samples, s)
 	}
 	res.Samples = append(res.Samples, r.samples...)
+	if res.Paths%64 == 0 {
+		var ms runtime.MemStats
+		runtime.ReadMemStats(&ms)
+		if ms.HeapAlloc > 24<<30 {
+			ex.stop = true
+			res.Undecided = append(res.Undecided, "engine heap above 24 GiB: exploration stopped")
+			ex.cond.Broadcast()
+		}
+	}
 	if res.Paths >= job.B.MaxPaths || time.Since(ex.start) > time.Duration(job.B.MaxWallS)*time.Second {
 		ex.stop = true
 		ex.cond.Broadcast()
